@@ -38,6 +38,8 @@ def run(chk, F):
     chk.guard("formula-shape", "substance_from_formula", lambda: formula(chk, F))
     chk.guard("symbol-invariant", "load_defs", lambda: symbol_invariant(chk, F))
     chk.guard("mixture-weights", "Add for &Substance", lambda: mixture_weights(chk, F))
+    import datafiles
+    chk.guard("element-symbols", "data", lambda: datafiles.element_symbols(chk))
 
 
 def siblings(chk, F):
